@@ -4,8 +4,8 @@ C18 — property theorems, part 2: `<cstring>` / `<cwchar>` (part 1, character c
 For every allocation, offset and count satisfying the C preconditions — written as the decidable
 predicates `Spec.Terminated`, `Spec.ReadableN` and a room inequality, the same ones the generator
 of `checks/props/c18.py` uses — the model returns `.ok` (no read or write outside an allocation,
-no fuel exhaustion: the memory-safety face, C02) of exactly the ISO C result (pointer results: the model returns the absolute index, the spec the
-offset from the pointer argument).  For the writers the
+no fuel exhaustion: the memory-safety face, C02) of exactly the ISO C result (pointer results: the model
+returns the absolute index, the spec the offset from the pointer argument).  For the writers the
 *whole* destination allocation equals `Spec.splice …`: every unit outside the extent C defines is
 unchanged.
 -/
@@ -128,13 +128,30 @@ theorem memmove_eq (b : Buf) (d s n : Nat) (hs : s + n ≤ b.length) (hd : d + n
   · simp only [if_pos h, memmoveBack_spec d s (by omega) n b hd, ok_bind]
   · simp only [if_neg h, memmoveFwd_spec n b d s (by omega) hs, ok_bind]
 
+/-- `memmove` with source and destination in two different allocations: whatever the comparison `ps < pd` of
+    the unrelated pointers yields (`back`), the result is that of `memcpy` -/
+theorem memmove2_eq (back : Bool) (dst : Buf) (d : Nat) (src : Buf) (s n : Nat) (hs : s + n ≤ src.length)
+    (hroom : d + n ≤ dst.length) : memmove2 back dst d src s n = .ok (d, Spec.memcpy dst d src s n) := by
+  cases back
+  · exact memcpy_eq dst d src s n hs hroom
+  · simp only [memmove2, if_true, memmoveBack2_spec src d s n dst hs hroom, ok_bind, Spec.memcpy]
+
+/-- `memcpy` between two disjoint extents of one allocation (either order) -/
+theorem memcpy1_eq (b : Buf) (d s n : Nat) (hs : s + n ≤ b.length) (hd : d + n ≤ b.length)
+    (hdis : s + n ≤ d ∨ d + n ≤ s) : memcpy1 b d s n = .ok (d, Spec.memmove b d s n) := by
+  unfold memcpy1 Spec.memmove
+  rcases hdis with h | h
+  · simp only [memmoveFwd_below_spec n b d s h hd, ok_bind]
+  · simp only [memmoveFwd_spec n b d s (by omega) hs, ok_bind]
+
 /-! ## comparisons: sign of the first differing pair, `unsigned char` / `wchar_t` order -/
 
 theorem strcmp_eq (ct : CT) (hb : 0 < ct.bits) (a : Buf) (i : Nat) (b : Buf) (j : Nat) (ha : Spec.Terminated a i)
     (hbt : Spec.Terminated b j) (hua : Spec.Units ct.bits a) (hub : Spec.Units ct.bits b) :
     strcmp ct a i b j = .ok (Spec.strcmp (Spec.key ct.bits ct.signedCmp) a i b j) := by
   unfold strcmp Spec.strcmp
-  rw [key_eq]
+  rw [cmp_key_eq ct hb hua hub _ _ (fun x hx => List.mem_of_mem_drop (mem_of_mem_upto0 hx))
+    (fun y hy => List.mem_of_mem_drop (mem_of_mem_upto0 hy))]
   exact strcmpLoop_spec ct a b (a.drop i) (b.drop j) i j (a.length + 1) rfl rfl ha hbt (drop_length_lt a i)
     (units_inj ct hb hua hub i j)
 
@@ -142,15 +159,29 @@ theorem strncmp_eq (ct : CT) (hb : 0 < ct.bits) (a : Buf) (i : Nat) (b : Buf) (j
     (hbt : Spec.ReadableN b j n) (hua : Spec.Units ct.bits a) (hub : Spec.Units ct.bits b) :
     strncmp ct a i b j n = .ok (Spec.strncmp (Spec.key ct.bits ct.signedCmp) a i b j n) := by
   unfold strncmp Spec.strncmp
-  rw [key_eq]
+  rw [cmp_key_eq ct hb hua hub _ _ (fun x hx => List.mem_of_mem_drop (List.mem_of_mem_take (mem_of_mem_upto0 hx)))
+    (fun y hy => List.mem_of_mem_drop (List.mem_of_mem_take (mem_of_mem_upto0 hy)))]
   exact strncmpLoop_spec ct a b n (a.drop i) (b.drop j) i j rfl rfl (readableN_drop ha) (readableN_drop hbt)
     (units_inj ct hb hua hub i j)
+
+/-- `strncmp` under the weaker joint precondition `Spec.cmpReadableN`: the arrays need only contain the pairs
+    the comparison reaches (it stops at the first difference and after a pair of zeros), so e.g. a short
+    unterminated array compared with a string that differs from it early is covered.  `strncmp_eq` is the
+    special case in which each array is readable on its own (`cmpReadableN_of_readable`). -/
+theorem strncmp_joint_eq (ct : CT) (hb : 0 < ct.bits) (a : Buf) (i : Nat) (b : Buf) (j n : Nat)
+    (h : Spec.cmpReadableN (a.drop i) (b.drop j) n = true) (hua : Spec.Units ct.bits a) (hub : Spec.Units ct.bits b) :
+    strncmp ct a i b j n = .ok (Spec.strncmp (Spec.key ct.bits ct.signedCmp) a i b j n) := by
+  unfold strncmp Spec.strncmp
+  rw [cmp_key_eq ct hb hua hub _ _ (fun x hx => List.mem_of_mem_drop (List.mem_of_mem_take (mem_of_mem_upto0 hx)))
+    (fun y hy => List.mem_of_mem_drop (List.mem_of_mem_take (mem_of_mem_upto0 hy)))]
+  exact strncmpLoop_joint_spec ct a b n (a.drop i) (b.drop j) i j rfl rfl h (units_inj ct hb hua hub i j)
 
 theorem memcmp_eq (ct : CT) (hb : 0 < ct.bits) (a : Buf) (i : Nat) (b : Buf) (j n : Nat) (ha : i + n ≤ a.length)
     (hbt : j + n ≤ b.length) (hua : Spec.Units ct.bits a) (hub : Spec.Units ct.bits b) :
     memcmp ct a i b j n = .ok (Spec.memcmp (Spec.key ct.bits ct.signedCmp) a i b j n) := by
   unfold memcmp Spec.memcmp
-  rw [key_eq]
+  rw [cmp_key_eq ct hb hua hub _ _ (fun x hx => List.mem_of_mem_drop (List.mem_of_mem_take hx))
+    (fun y hy => List.mem_of_mem_drop (List.mem_of_mem_take hy))]
   exact memcmpLoop_spec ct a b n (a.drop i) (b.drop j) i j rfl rfl (by simp; omega) (by simp; omega)
     (units_inj ct hb hua hub i j)
 
@@ -198,6 +229,16 @@ theorem strrchr_eq (ct : CT) (b : Buf) (p : Nat) (ch : Int) (h : Spec.Terminated
     have : i < (Spec.cstr b p).length := by simpa using hi
     rw [List.getElem?_append_left this]
 
+
+/-- `detail::strrchr` as written, null pointer included: a null `str` gives null (a tetl extension; ISO C leaves
+    it undefined), any other pointer to a string gives the ISO C result -/
+theorem strrchrP_eq (ct : CT) (str : Option (Buf × Nat)) (ch : Int) (h : ∀ b p, str = some (b, p) → Spec.Terminated b p) :
+    strrchrP ct str ch = .ok (match str with
+      | none => none
+      | some (b, p) => (Spec.strrchr b p (Spec.toUnit ct.bits ch)).map (p + ·)) := by
+  cases str with
+  | none => rfl
+  | some bp => obtain ⟨b, p⟩ := bp; exact strrchr_eq ct b p ch (h b p rfl)
 
 theorem strspn_eq (b : Buf) (p : Nat) (t : Buf) (q : Nat) (hb : Spec.Terminated b p) (ht : Spec.Terminated t q) :
     strspn true b p t q = .ok (Spec.strspn b p t q) := by
@@ -290,6 +331,13 @@ example : (0 + 5 ≤ [97, 98].length ∨ Spec.toUnit 8 98 ∈ [97, 98].drop 0) :
 example : strstr [97, 98, 97, 0] 0 [98, 97, 0] 0 = .ok (some 1) :=
   strstr_eq [97, 98, 97, 0] 0 [98, 97, 0] 0 (by decide) (by decide)
 example : strpbrk [97, 98, 0] 0 [99, 0] 0 = .ok none := strpbrk_eq [97, 98, 0] 0 [99, 0] 0 (by decide) (by decide)
+example : Spec.cmpReadableN [97, 0] [98] 5 = true ∧ ¬ Spec.ReadableN [98] 0 5 ∧ Spec.cmpReadableN [97] [97] 2 = false := by decide
+example : strncmp CT.char [97, 0] 0 [98] 0 5 = .ok (-1) :=
+  strncmp_joint_eq CT.char (by decide) [97, 0] 0 [98] 0 5 (by decide) (by decide) (by decide)
+example : memmove2 true [9, 9, 9, 9] 1 [1, 2, 3] 1 2 = .ok (1, [9, 2, 3, 9]) :=
+  memmove2_eq true [9, 9, 9, 9] 1 [1, 2, 3] 1 2 (by decide) (by decide)
+example : memcpy1 [1, 2, 3, 4, 5] 3 0 2 = .ok (3, [1, 2, 3, 1, 2]) := memcpy1_eq [1, 2, 3, 4, 5] 3 0 2 (by decide) (by decide) (by decide)
+example : strrchrP CT.wchar none 97 = .ok none := strrchrP_eq CT.wchar none 97 (fun _ _ h => by cases h)
 example : strrchr CT.char [98, 97, 98, 97, 0] 1 97 = .ok (some 3) := strrchr_eq CT.char [98, 97, 98, 97, 0] 1 97 (by decide)
 
 end Tetl.C18.Props
